@@ -96,6 +96,10 @@ def confirm(prop, res):
         if info.get("mode") == "const-width-probes":
             mism += const_width_misses(dumps, profile)
             continue
+        if info.get("mode") == "envelope":
+            from .rounding import envelope_misses
+            mism += envelope_misses(dumps, info, profile)
+            continue
         for k, (d, e) in enumerate(zip(dumps, expected)):
             bad = rpl.compare(d, e, rel=1e-9, scale=info.get("scale", 1.0)) + parts_mismatch(d, e, info.get("scale", 1.0))
             if bad:
@@ -120,6 +124,12 @@ def replay_file(path):
         dumps = rpl.run_scenario(rec["program"], profile)
         if rec.get("info", {}).get("mode") == "const-width-probes":
             for x in const_width_misses(dumps, profile):
+                print(x)
+                bad_total += 1
+            continue
+        if rec.get("info", {}).get("mode") == "envelope":
+            from .rounding import envelope_misses
+            for x in envelope_misses(dumps, rec["info"], profile):
                 print(x)
                 bad_total += 1
             continue
@@ -155,6 +165,10 @@ def finish(W, prop):
             if verdict == "violated":
                 rec["verdict"] = "violated"
                 rec["replay_path"] = info
+            elif r.get("unestablished_ok"):
+                # an over-approximating analysis could not establish its bound and the real build shows no miss: recorded, not a failure
+                rec["verdict"] = "unestablished"
+                rec["reason"] = "%s; native runs of the candidates stay inside the envelope" % (r.get("reason"),)
             else:
                 rec["verdict"] = "inconclusive"
                 rec["reason"] = info
@@ -207,18 +221,30 @@ def plan_c01(tier, seed):
             for k in ((1, 2, 3, 4, 5) if tier == "quick" else (1, 2, 3, 4, 5, 6, 7)):
                 T(mo.check_def_k, "C01", ty, k)
         T(mo.check_variance_accessors, "C01", "Variance")
+        from . import rounding as ro
+        for ty, acc, ks in (("Mean", "mean", (1, 2, 3, 4)), ("Variance", "mean", (2, 3)), ("Variance", "population_variance", (2, 3)),
+                            ("Variance", "sample_variance", (2, 3)), ("Variance", "variance_of_mean", (2, 3))):
+            for k in ks:
+                T(ro.check_stream_rounding, "C01", ty, k, acc, timeout_ms=60000 if tier == "quick" else 600000)
     return run_set("C01", tier, False, body)
 
 
 def plan_c02(tier, seed):
     def body(W, T):
-        for ty in ("Mean", "Variance", "Skewness", "Kurtosis", "Moments4", "M5", "M6") + (("M8", "M10") if tier == "thorough" else ()):
+        # orders 8 and 10: the merge-step identity of the top central sums comes back 'unknown' after 10 min (DESIGN.md section 7): not claimed
+        for ty in ("Mean", "Variance", "Skewness", "Kurtosis", "Moments4", "M5", "M6"):
             T(mo.check_merge_step, "C02", ty)
         k, chunks = (4, 3) if tier == "quick" else (5, 4)
         for ty in ("Mean", "Variance", "Skewness", "Kurtosis", "Moments4"):
             T(mo.check_def_merge, "C02", ty, k, chunks)
         if tier == "thorough":
             T(mo.check_def_merge, "C02", "M6", 4, 3)
+        from . import rounding as ro
+        to = 60000 if tier == "quick" else 600000
+        for ch in ((1, 1), (2, 1), (1, 2), (1, 1, 1)):
+            T(ro.check_stream_rounding, "C02", "Mean", sum(ch), "mean", timeout_ms=to, chunks=ch)
+            T(ro.check_stream_rounding, "C02", "Variance", sum(ch), "population_variance", timeout_ms=to, chunks=ch)
+            T(ro.check_stream_rounding, "C02", "Variance", sum(ch), "mean", timeout_ms=to, chunks=ch)
     return run_set("C02", tier, True, body)
 
 
@@ -232,6 +258,15 @@ def plan_c03(tier, seed):
             T(mo.check_skew_kurt_accessors, "C03", ty)
             for k in ((2, 3, 4) if tier == "quick" else (2, 3, 4, 5)):
                 T(mo.check_def_k, "C03", ty, k)
+        from . import rounding as ro
+        for ty in ("Skewness", "Kurtosis"):
+            for acc in ("mean", "population_variance"):
+                for k in (2, 3):
+                    T(ro.check_stream_rounding, "C03", ty, k, acc, timeout_ms=60000 if tier == "quick" else 300000)
+            # third central sum after three adds (kappa <= 1e6): 55 of 59 sign cases are proved, four do not finish even in 10 min, so on the
+            # pinned tree this obligation ends 'unestablished' (recorded, not failing); what it is for: when the bound FAILS, the solver's models
+            # are run on the real build and skewness() is measured against the property's envelope
+            T(ro.check_stream_rounding, "C03", ty, 3, "sum_3", timeout_ms=20000 if tier == "quick" else 120000)
     return run_set("C03", tier, False, body)
 
 
@@ -244,6 +279,10 @@ def plan_c04(tier, seed):
             T(mo.check_moments_accessors, "C04", ty)
             for k in ((2, 3) if tier == "quick" else (2, 3, 4)):
                 T(mo.check_def_k, "C04", ty, k)
+        from . import rounding as ro
+        for ty in ("Moments4", "M5", "M10"):
+            for k in (2, 3):
+                T(ro.check_stream_rounding, "C04", ty, k, "mean", timeout_ms=60000 if tier == "quick" else 600000)
     return run_set("C04", tier, True, body)
 
 
@@ -266,6 +305,14 @@ def plan_c09(tier, seed):
         T(pr.check_cov_accessors, "C09")
         for k in ((1, 2, 3) if tier == "quick" else (1, 2, 3, 4)):
             T(pr.check_cov_def_k, "C09", k, with_merge=(k >= 2))
+        from . import rounding as ro
+        to = 60000 if tier == "quick" else 300000
+        for acc in ("mean_x", "mean_y", "population_variance_x", "population_variance_y", "sample_variance_x", "sample_variance_y"):
+            for k, ch in ((2, None), (3, None), (3, (2, 1)), (3, (1, 2))):
+                T(ro.check_stream_rounding, "C09", "Covariance", k, acc, timeout_ms=to, chunks=ch)
+        for acc in ("population_covariance", "sample_covariance"):
+            for ch in (None, (1, 1)):
+                T(ro.check_stream_rounding, "C09", "Covariance", 2, acc, timeout_ms=to, chunks=ch)
     return run_set("C09", tier, False, body)
 
 
@@ -276,6 +323,10 @@ def plan_c10(tier, seed):
         for ty in ("Moments4", "M6"):
             T(mo.check_sample_stats, "C10", ty)
         T(pr.check_wmwe_accessors, "C10")
+        from . import rounding as ro
+        for ty in ("Skewness", "Kurtosis", "Moments4", "M6"):
+            for k in (2, 3):
+                T(ro.check_stream_rounding, "C10", ty, k, "sample_variance", timeout_ms=60000 if tier == "quick" else 600000)
     return run_set("C10", tier, True, body)
 
 
